@@ -84,7 +84,7 @@ def guardHolds (g : String) (v : Option FVal) : Bool :=
   | _, none => false
   | "lenPos", some (.nlv n) => !n.isEmpty
   | "lenPos", some (.items l) => l.length != 0
-  | "notNilLike", some (.item i) => !i.isNilLike
+  | "notNilLike", some x => !(itemOfField (some x)).isNilLike
   | _, some _ => true
 
 def instantOf : Option FVal → Option (Int × Int)
@@ -132,12 +132,12 @@ def rowHolds (rec : Rec) (o w : Fields) (row : String × String × String) : Opt
       (match w.get? f with
        | some (.nlv wn) => some (nlvEquals wn (nlvOf (o.get? f)))
        | some (.items wl) => listEquals rec wl.toList (itemOfField (o.get? f))
-       | _ => some false)
+       | _ => some (Copy.optBeq (o.get? f) (w.get? f)))
     | "equalsO" =>
       (match w.get? f with
        | some (.nlv wn) => some (nlvEquals (nlvOf (o.get? f)) wn)
        | some (.items wl) => listEquals rec (membersOf (itemOfField (o.get? f))) (.coll false wl)
-       | _ => some false)
+       | _ => some (Copy.optBeq (o.get? f) (w.get? f)))
     | "time" => some (instantOf (o.get? f) == instantOf (w.get? f))
     | "value" => some (Copy.optBeq (o.get? f) (w.get? f))
     | "link" =>
